@@ -991,6 +991,13 @@ class Interp:
     def e_Name(self, e, env):
         return self.load_name(e.id, env)
 
+    def e_Yield(self, e, env):
+        """`yield x` in a generator body the spec chose to run eagerly (generator_call): the value goes to the spec's hook,
+        nothing is sent back"""
+        v = self.ev(e.value, env) if e.value is not None else NONE
+        self.spec.on_yield(self, v, env)
+        return NONE
+
     def e_NamedExpr(self, e, env):
         v = self.ev(e.value, env)
         env.assign(e.target.id, v)
